@@ -1,7 +1,9 @@
 /* Executor for Announce behaviours (C13): feeds real VPS / packet 8/30 / XDS / WSS lines to
- * vbi_decode() and prints the events each reception raised and whether the sentinel page is
- * still cached.  No expectation lives here.
- * stdin:  R | T (transmit the sentinel page 150) | V cni pil | 1 cni mjd utc lto | 2 cni pil
+ * vbi_decode(), registers and unregisters event handlers in mid-stream and prints the events each
+ * handler was handed by the step and whether the sentinel page is still cached.  No expectation lives here.
+ * stdin:  R (new decoder, no handler) | T (transmit the sentinel page 150)
+ *         H r|a slot TYPE|TYPE..  (vbi_event_handler_register / _add of handler <slot>; "0": _unregister / _remove)
+ *         V cni pil pty pcs | 1 cni mjd utc lto | 2 cni pil lci luf prf pcs mi pty [x = two bit errors in one Hamming byte]
  *         N name | L call-letters | W b0 b1
  */
 #include <stdio.h>
@@ -27,37 +29,64 @@ static void add(const char *fmt, ...)
 	va_end(ap);
 }
 
+#define NSLOT 3
+static int slot_id[NSLOT] = { 0, 1, 2 };
+
 static void handler(vbi_event *ev, void *ud)
 {
-	(void) ud;
+	int h = *(int *) ud;
 	switch (ev->type) {
 	case VBI_EVENT_NETWORK:
 	case VBI_EVENT_NETWORK_ID: {
 		vbi_network *n = &ev->ev.network;
-		add("%s{\"t\":\"%s\",\"nuid\":%u,\"cni_vps\":%d,\"cni_8301\":%d,\"cni_8302\":%d,\"name\":\"%.20s\",\"call\":\"%.20s\"}", evn ? "," : "",
+		add("%s{\"h\":%d,\"t\":\"%s\",\"nuid\":%u,\"cni_vps\":%d,\"cni_8301\":%d,\"cni_8302\":%d,\"name\":\"%.20s\",\"call\":\"%.20s\"}", evn ? "," : "", h,
 		    ev->type == VBI_EVENT_NETWORK ? "NETWORK" : "NETWORK_ID", n->nuid, n->cni_vps, n->cni_8301, n->cni_8302, (char *) n->name, (char *) n->call);
 		break;
 	}
 	case VBI_EVENT_PROG_ID: {
 		const vbi_program_id *p = ev->ev.prog_id;
-		add("%s{\"t\":\"PROG_ID\",\"cni\":%u,\"pil\":%u,\"ch\":%d,\"luf\":%d,\"mi\":%d,\"prf\":%d,\"pcs\":%d,\"pty\":%u}", evn ? "," : "",
-		    p->cni, p->pil, (int) p->channel, p->luf, p->mi, p->prf, (int) p->pcs_audio, p->pty);
+		add("%s{\"h\":%d,\"t\":\"PROG_ID\",\"cni_type\":%d,\"cni\":%u,\"pil\":%u,\"ch\":%d,\"luf\":%d,\"mi\":%d,\"prf\":%d,\"pcs\":%d,\"pty\":%u}", evn ? "," : "", h,
+		    (int) p->cni_type, p->cni, p->pil, (int) p->channel, p->luf, p->mi, p->prf, (int) p->pcs_audio, p->pty);
 		break;
 	}
 	case VBI_EVENT_LOCAL_TIME: {
 		const vbi_local_time *lt = ev->ev.local_time;
-		add("%s{\"t\":\"LOCAL_TIME\",\"time\":%ld,\"east\":%d}", evn ? "," : "", (long) lt->time, lt->seconds_east);
+		add("%s{\"h\":%d,\"t\":\"LOCAL_TIME\",\"time\":%ld,\"east\":%d,\"east_valid\":%d}", evn ? "," : "", h, (long) lt->time, lt->seconds_east,
+		    (int) lt->seconds_east_valid);
 		break;
 	}
 	case VBI_EVENT_ASPECT: {
 		vbi_aspect_ratio *r = &ev->ev.aspect;
-		add("%s{\"t\":\"ASPECT\",\"first\":%d,\"last\":%d,\"ratio1000\":%d,\"film\":%d,\"subt\":%d}", evn ? "," : "",
+		add("%s{\"h\":%d,\"t\":\"ASPECT\",\"first\":%d,\"last\":%d,\"ratio1000\":%d,\"film\":%d,\"subt\":%d}", evn ? "," : "", h,
 		    r->first_line, r->last_line, (int) (r->ratio * 1000 + .5), r->film_mode, (int) r->open_subtitles);
 		break;
 	}
 	default:
 		break;
 	}
+}
+
+/* one function per slot: the deprecated _add / _remove identify a handler by its function alone */
+static void handler0(vbi_event *ev, void *ud) { handler(ev, ud); }
+static void handler1(vbi_event *ev, void *ud) { handler(ev, ud); }
+static void handler2(vbi_event *ev, void *ud) { handler(ev, ud); }
+static vbi_event_handler slot_fn[NSLOT] = { handler0, handler1, handler2 };
+
+static int mask_of(const char *s)
+{
+	static const struct { const char *n; int m; } t[] = {
+		{ "NETWORK_ID", VBI_EVENT_NETWORK_ID }, { "NETWORK", VBI_EVENT_NETWORK }, { "PROG_ID", VBI_EVENT_PROG_ID },
+		{ "LOCAL_TIME", VBI_EVENT_LOCAL_TIME }, { "ASPECT", VBI_EVENT_ASPECT }, { "TTX_PAGE", VBI_EVENT_TTX_PAGE },
+		{ "CAPTION", VBI_EVENT_CAPTION }, { "PROG_INFO", VBI_EVENT_PROG_INFO } };
+	int m = 0;
+	while (*s) {
+		unsigned i, n = strcspn(s, "|\n");
+		for (i = 0; i < sizeof t / sizeof *t; i++)
+			if (strlen(t[i].n) == n && !strncmp(s, t[i].n, n)) m |= t[i].m;
+		s += n;
+		if (*s) s++;
+	}
+	return m;
 }
 
 static void feed(vbi_sliced *s)
@@ -79,17 +108,14 @@ int main(void)
 	char line[256];
 	setvbuf(stdout, NULL, _IOFBF, 1 << 16);
 	while (fgets(line, sizeof line, stdin)) {
-		unsigned a, b, c;
-		int d;
+		unsigned a = 0, b = 0, c = 0;
+		int d = 0;
 		vbi_sliced s;
 		memset(&s, 0, sizeof s);
 		switch (line[0]) {
 		case 'R':
 			if (vbi) vbi_decoder_delete(vbi);
 			vbi = vbi_decoder_new();
-			vbi_event_handler_register(vbi, VBI_EVENT_NETWORK | VBI_EVENT_NETWORK_ID | VBI_EVENT_PROG_ID
-						   | VBI_EVENT_LOCAL_TIME | VBI_EVENT_ASPECT | VBI_EVENT_TTX_PAGE
-						   | VBI_EVENT_CAPTION, handler, NULL);
 			ttx_tx_init(&tx, vbi);
 			evn = 0; evbuf[0] = 0;
 			printf("{\"reset\":1}\n");
@@ -100,11 +126,27 @@ int main(void)
 			ttx_send_filler(&tx, 1);
 			report();
 			break;
+		case 'H': {
+			char api, types[200];
+			int h, m;
+			if (sscanf(line + 1, " %c %d %199s", &api, &h, types) != 3 || h < 0 || h >= NSLOT) break;
+			m = mask_of(types);
+			if (api == 'a') {
+				if (m) vbi_event_handler_add(vbi, m, slot_fn[h], &slot_id[h]);
+				else vbi_event_handler_remove(vbi, slot_fn[h]);
+			} else {
+				if (m) vbi_event_handler_register(vbi, m, slot_fn[h], &slot_id[h]);
+				else vbi_event_handler_unregister(vbi, slot_fn[h], &slot_id[h]);
+			}
+			report();
+			break;
+		}
 		case 'V': {
 			vbi_program_id pid;
-			sscanf(line + 1, "%x %x", &a, &b);
+			unsigned pty = 0, pcs = 0;
+			sscanf(line + 1, "%x %x %x %x", &a, &b, &pty, &pcs);
 			memset(&pid, 0, sizeof pid);
-			pid.cni_type = VBI_CNI_TYPE_VPS; pid.cni = a; pid.pil = b; pid.pcs_audio = VBI_PCS_AUDIO_STEREO; pid.pty = 0x42;
+			pid.cni_type = VBI_CNI_TYPE_VPS; pid.cni = a; pid.pil = b; pid.pcs_audio = (vbi_pcs_audio) pcs; pid.pty = pty;
 			s.id = VBI_SLICED_VPS; s.line = 16;
 			memset(s.data, 0xAA, 13);
 			if (!vbi_encode_vps_pdc(s.data, &pid)) { printf("{\"evs\":[],\"encode_failed\":true}\n"); break; }
@@ -117,12 +159,16 @@ int main(void)
 			enc_8301(s.data, a, b, c, d);
 			feed(&s); report();
 			break;
-		case '2':
-			sscanf(line + 1, "%x %x", &a, &b);
+		case '2': {
+			unsigned lci = 0, luf = 0, prf = 0, pcs = 0, mi = 0, pty = 0;
+			char flag = 0;
+			sscanf(line + 1, "%x %x %x %x %x %x %x %x %c", &a, &b, &lci, &luf, &prf, &pcs, &mi, &pty, &flag);
 			s.id = VBI_SLICED_TELETEXT_B; s.line = 7;
-			enc_8302(s.data, a, b, 1, 0, 1, 2, 1, 0x42);
+			enc_8302(s.data, a, b, lci, luf, prf, pcs, mi, pty);
+			if (flag == 'x') s.data[13] ^= 0x05;	/* two bit errors: not correctable by Hamming 8/4 */
 			feed(&s); report();
 			break;
+		}
 		case 'L':       /* XDS network call letters (Channel class, type 2) */
 		case 'N': {
 			char name[64];
